@@ -163,7 +163,8 @@ pub fn cmd_explore(opt: &HashMap<String, String>) -> i32 {
     let clone = want(14) || want(19) || want(6) || want(7) || want(20);
     let clone_product = if want(14) { 1 } else { 0 };
     let exhaustive_pat_len = if thorough { 10 } else { 8 };
-    let state_opts = StateOpts { exhaustive_pat_len, owning, clone, clone_product };
+    let trap = want(19);
+    let state_opts = StateOpts { exhaustive_pat_len, owning, clone, clone_product, trap };
     let fault_only = prop_s == "C16" || prop_s == "C17";
 
     let mut phases: Vec<Phase> = vec![];
@@ -252,6 +253,7 @@ pub fn cmd_explore(opt: &HashMap<String, String>) -> i32 {
                 owning: owning && sd.len <= 64,
                 clone,
                 clone_product: if clone_product > 0 && sd.len <= 30 { 1 } else { 0 },
+                trap,
             };
             let falpha = sd.alpha.clone();
             let w16 = want(16);
@@ -517,7 +519,7 @@ pub fn cmd_replay(opt: &HashMap<String, String>) -> i32 {
             }
         }
         (_, None) => {
-            let so = StateOpts { exhaustive_pat_len: 10, owning: true, clone: true, clone_product: 1 };
+            let so = StateOpts { exhaustive_pat_len: 10, owning: true, clone: true, clone_product: 1, trap: true };
             let r = check_state(&ctx, &cfg, &hist, None, &so, &mut st);
             if let Some(m) = r.machinery {
                 eprintln!("MACHINERY ERROR: {m}");
